@@ -7,14 +7,96 @@ RULE = ('C19 runs on spied, instrumented HsmWithQueues and ActiveObject charts: 
         'after every step the number of new full.trace records must be 1 iff the reference model says the event caused a transition '
         '(including self-transitions and guard-fired transitions after declines), 0 for hooks, declined-and-ignored and unknown events; '
         'the record must be (previous rest state, signal, new rest state); at the end the record list must equal the expected list cut '
-        'to the 500-record ring (long runs cross it); clear_trace() calls by the client in between restart the expected list; a share of the active objects subscribe and / or publish BEFORE start_at, so that their first steps handle the SUBSCRIBE / PUBLISH meta event (no transition: no record). distinct_nontrivial = distinct (host, transitions, non-transitions) per run')
+        'to the 500-record ring (long runs cross it); clear_trace() calls by the client in between restart the expected list; a share of the active objects subscribe and / or publish BEFORE start_at, so that their first steps handle the SUBSCRIBE / PUBLISH meta event (no transition: no record). Every tenth case steps an instrumented active object through transitions, hooks and ignored events while another thread registers new signal names (detsched, opcode-level yield points in the signal classification of miros/event.py): exactly one record per transition. distinct_nontrivial = distinct (host, transitions, non-transitions) per run')
 CASES = {'quick': 2500, 'thorough': 150000}
 BUDGET = {'quick': 150, 'thorough': 300}
-REQUIRE = {'trace_transitions': 5000, 'trace_non_transitions': 5000, 'trace_ring_crossed': 1, 'clear_trace_calls': 100, 'subscribe_meta_steps': 80, 'publish_meta_steps': 50}
+REQUIRE = {'trace_transitions': 5000, 'trace_non_transitions': 5000, 'trace_ring_crossed': 1, 'clear_trace_calls': 100, 'subscribe_meta_steps': 60, 'publish_meta_steps': 40, 'runs_stepping_while_signals_are_registered': 150}
+ANNOUNCE_CASES = True
 ASSUME = ['steps stay below the 250-tuple per-step ring']
 
 
+def concurrent_registration_case(ctx, n):
+  """an instrumented active object steps through transitions, hooks and ignored events while ANOTHER thread registers new
+  signal names (every program that builds Event('NEW_NAME') at run time does): the trace must still have exactly one record
+  per transition.  detsched, opcode-level yield points in the signal classification of miros/event.py"""
+  import miros.activeobject as AO
+  import miros.event as EV
+  import miros.hsm as H
+  from miros.event import Event, return_status as RS
+  from vt import detsched as ds, aosim
+  from vt.checks import c25
+  rng = ctx.rng('reg', n)
+  pol = aosim.policy_for(rng, est_len=2500, fair_suffix=False)
+  s = ds.Sched(seed=rng.randrange(1 << 30), max_steps=3000000, **pol)
+  ds.install(s, line_mods=[AO, H], line_funcs={H: aosim.HSM_FUNCS + ['_spy_on']}, op_funcs={EV: ['is_inner_signal', 'is_number_an_internal_signal']})
+  saved = c25.fresh_registry()
+  saved_globals = (H.signals, AO.signals)
+  H.signals = AO.signals = EV.signals          # hsm.py and activeobject.py bind the registry at import: they must see the fresh one
+  try:
+    sig = EV.signals
+
+    def mk(name, other):
+      def st(chart, e):
+        if e.signal in (sig.ENTRY_SIGNAL, sig.INIT_SIGNAL, sig.EXIT_SIGNAL):
+          return RS.HANDLED
+        if e.signal_name == 'GO':
+          return chart.trans(states[other])
+        if e.signal_name == 'HOOK':
+          return RS.HANDLED
+        chart.temp.fun = chart.top
+        return RS.SUPER
+      st.__name__ = name
+      return H.spy_on(st)
+    states = {}
+    states['a'], states['b'] = mk('c20_a', 'b'), mk('c20_b', 'a')
+    script = [rng.choice(['GO', 'GO', 'HOOK', 'NOBODY']) for _ in range(rng.randint(3, 8))]
+    for nm in ('GO', 'HOOK', 'NOBODY'):
+      sig.append(nm)
+    wit = {'concurrent_registration': True, 'script': script, 'policy': pol}
+    try:
+      ao = AO.ActiveObject(name='c20_reg')
+      ao.start_at(states['a'])
+      s.quiesce()
+
+      def registrar():
+        for i in range(rng.randint(4, 10)):
+          EV.signals.append('C20_NEW_%d_%d' % (n, i))
+      th = ds.SThread(target=registrar)
+      th.start()
+      for sn in script:
+        ao.post_fifo(Event(signal=sn))
+      th.join()
+      s.quiesce()
+    except ds.Verdict as v:
+      ctx.violation('C20/' + v.kind, 'stepping while another thread registers signals ended in %s: %r' % (v.kind, (v.info or {}).get('blocked')), wit)
+      return
+    ctx.count('runs_stepping_while_signals_are_registered')
+    ctx.distinct(('reg', tuple(script), s.signature()[:40]))
+    exc = [(t.name, t.role, repr(t.exc)) for t in s.threads if t.exc is not None]
+    if exc:
+      ctx.violation('C20/exception-in-thread', 'a thread died: %r' % exc, wit)
+      return
+    exp, cur = [('top', None, 'c20_a')], 'a'
+    for sn in script:
+      if sn == 'GO':
+        nxt = 'b' if cur == 'a' else 'a'
+        exp.append(('c20_' + cur, 'GO', 'c20_' + nxt))
+        cur = nxt
+    got = [(t.start_state, t.signal, t.end_state) for t in ao.full.trace]
+    ctx.count('trace_transitions', len(exp) - 1)
+    if got != exp:
+      ctx.violation('C20/full-trace-differs', 'while another thread registered new signal names the trace became %r; the %d transitions of the script %r give %r' % (got, len(exp) - 1, script, exp), wit)
+  finally:
+    EV.signals = saved
+    H.signals, AO.signals = saved_globals
+    z = ds.uninstall()
+    if z:
+      ctx.count('zombie_threads', z)
+
+
 def run_case(ctx, n):
+  if n % 10 == 9:
+    return concurrent_registration_case(ctx, n)
   rng = ctx.rng('kind', n)
   long_run = rng.random() < 0.08
   r = qcheck.run_qcase(ctx, n, ('C20',), with_queries=n % 2 == 0, long_run=long_run, n_ops=1500 if n % 500 == 7 else None, clears=True)
